@@ -239,6 +239,13 @@ impl Session {
 
         #[cfg(feature = "verif")]
         crate::verif::point("close.before_writer").await;
+        // Drop the new-stream callback: the server's dispatch task waits on that
+        // channel while holding this session; without this it (and with it the
+        // session and its transport) would never be released.
+        if let Some(callback) = &self.on_new_stream {
+            callback.lock().await.take();
+        }
+
         // Attempt to shutdown writer gracefully
         {
             let mut writer = self.writer.lock().await;
